@@ -68,7 +68,9 @@ def alloc_section():
     # the ODL units guard must use the configured real class (taken from the property: "changes nothing else")
     progp = Program(["pvl.parser"])
     ci, fn = progp.function("pvl.parser.ODLParser.parse_units")
-    tests = [ast.unparse(n.test) for n in ast.walk(fn) if isinstance(n, ast.If)]
+    # (wherever the test is written: in the `if`, or in a named boolean the `if` uses)
+    tests = [ast.unparse(n) for n in ast.walk(fn) if isinstance(n, ast.Call) and isinstance(n.func, ast.Name)
+             and n.func.id == "isinstance" and len(n.args) == 2 and ast.unparse(n.args[0]) == "value"]
     ob("ODLParser.parse_units:numeric-guard-includes-the-configured-real_cls",
        any("self.decoder.real_cls" in t for t in tests), tests, "pvl.parser.ODLParser.parse_units")
     # the caller's decoder object is used as given (a rebuilt decoder would lose real_cls / quantity_cls)
